@@ -142,27 +142,32 @@ Qed.
 (* web is registered, the push fails (any error), web is registered again with the same definition *)
 Definition h_readd : list step := [SAddSvc 1 web 0 false []; SSyncChanges all_s all_c].
 
-Theorem local_add_marks_unsynced_refuted :
-  exists st c id d tok loc st' r,
-    wf_local st /\ honest st c /\ add_service id d tok loc st = (st', r) /\ ~ honest st' c.
+(* Regression examples for the two defects repaired in 9a2a9bf (about the CURRENT behaviour):
+   the re-registered entry stays out of sync, and honest is preserved on that very state. *)
+Theorem readd_stays_unsynced :
+  let st := fst (state_of h_readd [OFail]) in
+  let c := snd (state_of h_readd [OFail]) in
+  honest st c /\
+  (exists e, l_svcs (fst (add_service 1 web 0 false st)) !! 1%N = Some e /\ se_sync e = false /\ se_del e = false) /\
+  c_svcs c !! 1%N = None.
 Proof.
-  exists (fst (state_of h_readd [OFail])), (snd (state_of h_readd [OFail])), 1%N, web, 0%N, false.
-  eexists _, _. split; [|split; [apply honestb_ok; vm_compute; reflexivity|split; [reflexivity|]]].
-  - assert (A : agent_hist g0 h_readd lstate0 cat0 [OFail]) by agent_hist_tac.
-    unfold state_of. destruct (run_hist g0 h_readd lstate0 cat0 [OFail]) as [[st c] fs'] eqn:E.
-    exact (proj1 (wf_reachable _ _ _ _ _ _ A E)).
-  - intros [Hs _]. specialize (Hs 1%N (SE (Some web) 0 true false false) web).
-    assert (X : holds_svc (snd (state_of h_readd [OFail])) 1 web) by (apply Hs; vm_compute; reflexivity).
-    vm_compute in X. discriminate.
+  cbn zeta. split; [apply honestb_ok; vm_compute; reflexivity|]. split; [|vm_compute; reflexivity].
+  eexists. vm_compute. split; [reflexivity|split; reflexivity].
 Qed.
 
-(* ------------------------------------------------------------------ the placeholder panic is reachable *)
-
+(* a placeholder is reachable (foreign catalog entry, then the diff alone); adding over it is an
+   ordinary registration now *)
 Definition h_placeholder : list step := [DReg 1 false (Some (1%N, web)) []; SUpdateSyncState].
 
-Theorem placeholder_panic_reachable :
-  snd (do_step g0 (SAddSvc 1 web 0 false []) (fst (state_of h_placeholder [])) (snd (state_of h_placeholder [])) []) = RPanic.
-Proof. vm_compute. reflexivity. Qed.
+Theorem placeholder_add_ok :
+  let st := fst (state_of h_placeholder []) in
+  (exists e, l_svcs st !! 1%N = Some e /\ se_def e = None /\ se_del e = true) /\
+  snd (add_service 1 web 0 false st) = ROk /\
+  (exists e, l_svcs (fst (add_service 1 web 0 false st)) !! 1%N = Some e /\ se_sync e = false /\ se_del e = false).
+Proof.
+  cbn zeta. split; [eexists; vm_compute; repeat split; reflexivity|]. split; [vm_compute; reflexivity|].
+  eexists. vm_compute. repeat split; reflexivity.
+Qed.
 
 (* ------------------------------------------------------------------ non-vacuity *)
 
